@@ -64,7 +64,7 @@ def gen_cases(tier, seed):
                           "channels": rnd.choice(["1", "1", "2", "3", "rgb", "rgb+1", "1+rgb",
                                                   "rgb+rgb"]),
                           "naming": rnd.choice(["padded", "padded", "plain", "mixed"]),
-                          "dtype": rnd.choice(["uint8", "uint8", "uint16"]),
+                          "dtype": rnd.choice(["uint8", "uint8", "uint16", "int16"]),
                           "fmt": rnd.choice(["png", "png", "tif"]),
                           "storage": storage,
                           "slice_rel": r % 3,   # 0: fewer than, 1: equal to, 2: not a multiple
@@ -135,7 +135,16 @@ def run_case(case):
     dt = np.dtype("uint8" if rgb else case["dtype"])
     fmt = "png" if (rgb or dt == np.uint8) else case["fmt"]
     g = np.random.default_rng(case["vseed"])
-    stack = g.integers(0, np.iinfo(dt).max, size=(C, ns, nr, ncol), dtype=dt, endpoint=True)
+    out_dt = dt
+    if dt == np.int16:
+        # signed pixels (TIFF) stored into an unsigned or a float32 dataset: negative pixels
+        # saturate at 0 resp. are kept (the conversion rule of the chunk type converter)
+        fmt = "tif"
+        out_dt = np.dtype("uint16" if case["vseed"] % 2 else "float32")
+        stack = g.integers(-400, 400, size=(C, ns, nr, ncol)).astype(dt)
+    else:
+        stack = g.integers(0, np.iinfo(dt).max, size=(C, ns, nr, ncol), dtype=dt,
+                           endpoint=True)
     top = tempfile.mkdtemp(prefix="c15-")
     obs = {"conversions": 0, "codes": {code: 1}, "voxels_compared": 0,
            "slice_groups": {"fewer": int(ns < depth), "equal": int(ns == depth),
@@ -168,14 +177,21 @@ def run_case(case):
             for i in range(ns):
                 if kind_ == "rgb":
                     img = PIL.Image.fromarray(np.moveaxis(stack[ch0:ch0 + 3, i], 0, -1))
+                elif dt == np.int16:
+                    import tifffile
+                    tifffile.imwrite(os.path.join(p, f"{names[i]}.{fmt}"), stack[ch0, i])
+                    continue
                 else:
                     img = PIL.Image.fromarray(stack[ch0, i])
                 img.save(os.path.join(p, f"{names[i]}.{fmt}"))
             ch0 += 3 if kind_ == "rgb" else 1
         exp, size = expected(np, stack, code)
+        if out_dt != dt:
+            exp = (np.clip(exp, 0, 65535) if out_dt.kind == "u" else exp).astype(out_dt)
+            obs["signed_pixels_into_other_type"] = 1
         dest = os.path.join(top, "out")
         os.makedirs(dest)
-        info = {"type": "image", "data_type": dt.name, "num_channels": C,
+        info = {"type": "image", "data_type": out_dt.name, "num_channels": C,
                 "scales": [{"key": "k", "size": size, "chunk_sizes": [cs], "encoding": "raw",
                             "resolution": [1, 1, 1], "voxel_offset": [0, 0, 0]}]}
         if sharded:
@@ -270,6 +286,7 @@ def gates(obs, tier):
                                                     ("fewer", "equal", "partial_last")),
         "rgb_and_multi_directory": obs.get("rgb", 0) > 0 and obs.get("multi_dir", 0) > 0,
         "uint16_and_tiff": obs.get("uint16", 0) > 0 and obs.get("tiff", 0) > 0,
+        "signed_pixels_with_negative_values": obs.get("signed_pixels_into_other_type", 0) > 20,
         "all_storage_options": len(obs.get("storage", {})) == 5,
         "command_line_runs": obs.get("cli_runs", 0) > 10,
         "stacks_longer_than_256_slices": obs.get("more_than_256_slices", 0) > 0,
